@@ -10,7 +10,7 @@
  *   - guard pixels between the rows of the rectangle (row r: bytes [RW*cw*bpp, rowstride)) keep their symbolic fill value;
  *   - unsupported pixel format: canvas untouched;
  *   - 1x1 region, ordinary character: every pixel of the rectangle is one of the cell's two colours.
- * FMT grid: 32 = VBI_PIXFMT_RGBA32_LE, 5 = VBI_PIXFMT_PAL8, 1 = VBI_PIXFMT_YUV420 (unsupported).
+ * FMT grid: 32 = VBI_PIXFMT_RGBA32_LE, 6 = VBI_PIXFMT_PAL8, 1 = VBI_PIXFMT_YUV420 (unsupported).
  *
  * Page invariants assumed (what the formatter in teletext.c / caption.c guarantees): colour indices < 40 (size of
  * color_map), DRCS code points U+F000 + 64 * plane + glyph with glyph < 48, drcs[plane] NULL or 48 x 60 bytes,
@@ -45,7 +45,7 @@
 #endif
 #define PCOLS 3
 #define PROWS 2
-#define BPP (FMT == 5 ? 1 : 4)    /* bytes per pixel the harness sizes the canvas for (unsupported format: 4) */
+#define BPP (FMT == 6 ? 1 : 4)    /* bytes per pixel the harness sizes the canvas for (unsupported format: 4) */
 #define CW (CC ? CCW : TCW)
 #define CH (CC ? CCH : TCH)
 #define RECTW (RW * CW * BPP)
@@ -75,6 +75,7 @@ V_HARNESS(h_c16_gfx)
   unsigned i, x, y;
   vbi_char *first;
   V_INIT();
+  V_ASSERT(VBI_PIXFMT_PAL8 == 6 && VBI_PIXFMT_RGBA32_LE == 32 && VBI_PIXFMT_YUV420 == 1, "pixfmt_numbers_of_the_grid");
   PAGE.columns = PCOLS; PAGE.rows = PROWS;
   for (i = 0; i < PCOLS * PROWS; i++) {
     vbi_char *c = &PAGE.text[i];
@@ -126,7 +127,7 @@ V_HARNESS(h_c16_gfx)
   if (CC) vbi_draw_cc_page_region(&PAGE, (vbi_pixfmt) FMT, canvas, RSX < 0 ? -1 : STRIDE, column, row, RW, RH);
   else vbi_draw_vt_page_region(&PAGE, (vbi_pixfmt) FMT, canvas, RSX < 0 ? -1 : STRIDE, column, row, RW, RH, reveal, flash_on);
 
-  if (FMT != 32 && FMT != 5) {
+  if (FMT != 32 && FMT != 6) {
     for (i = 0; i < NPIX; i++) V_ASSERT(canvas[i] == fill, "unsupported_format_draws_nothing");
   } else {
     /* guard pixels to the right of the rectangle in every pixel row */
@@ -140,7 +141,7 @@ V_HARNESS(h_c16_gfx)
       for (y = 0; y < CH; y++)
         for (x = 0; x < CW; x++) {
           pix_t v = canvas[y * PSTRIDE + x];
-          if (FMT == 5) V_ASSERT(v == first->foreground || v == first->background, "pixel_has_a_pen_colour");
+          if (FMT == 6) V_ASSERT(v == first->foreground || v == first->background, "pixel_has_a_pen_colour");
           else V_ASSERT(v == PAGE.color_map[first->foreground] || v == PAGE.color_map[first->background], "pixel_has_a_pen_colour");
         }
       V_REACH("plain_cell");
